@@ -159,12 +159,13 @@ inline FloatType ParseFloat(const char *nptr, char **endptr) {
     if (i == 3) {
       // Got NAN; check if the value is of form NAN(char_sequence)
       if (*p == '(') {
-        ++p;
-        while (isdigit(*p) || isalpha(*p) || *p == '_') {
-          ++p;
+        const char *q = p + 1;
+        while (isdigit(*q) || isalpha(*q) || *q == '_') {
+          ++q;
         }
-        CHECK_EQ(*p, ')') << "Invalid NAN literal";
-        ++p;
+        if (*q == ')') {
+          p = q + 1;
+        }  // otherwise the '(' does not belong to the number (as in std::strtod)
       }
       static_assert(
           std::numeric_limits<FloatType>::has_quiet_NaN, "Only system with quiet NaN is supported");
